@@ -21,11 +21,15 @@ struct S { seq: u64, sess: Arc<Session>, inp: PipeCtl, sids: Vec<u32>, died: boo
 
 async fn run_api(log: &Log, seed: u64, i: u64) {
     let mut r = Rng::new(seed);
-    let (ci, it, mi) = (r.range(1, 3), r.range(1, 5), r.range(0, 2) as usize);
+    // all times in virtual milliseconds; settings include fractional seconds and timeouts below the interval
+    let ci = *r.pick(&[300u64, 500, 1000, 1500, 2000, 3000]);
+    let it = *r.pick(&[200u64, 800, 1000, 1500, 2000, 2500, 3000, 4200, 5000]);
+    let mi = r.range(0, 2) as usize;
     log.reset(json!({"kind": "api", "i": i, "consts": {"CI": ci, "IT": it, "MI": mi}}));
     let panics0 = PANICS.load(Ordering::SeqCst);
     let t0 = tokio::time::Instant::now();
-    let pool = SessionPool::with_config(SessionPoolConfig { check_interval: Duration::from_secs(ci), idle_timeout: Duration::from_secs(it), min_idle_sessions: mi });
+    let pool = SessionPool::with_config(SessionPoolConfig { check_interval: Duration::from_millis(ci), idle_timeout: Duration::from_millis(it), min_idle_sessions: mi });
+    let mut last_closed: Vec<u64> = Vec::new();
     quiesce().await;
     let mut all: Vec<S> = Vec::new();
     let mut next_seq = 1u64;
@@ -77,13 +81,16 @@ async fn run_api(log: &Log, seed: u64, i: u64) {
                 }
             }
             _ => {
-                let dt = r.range(1, 3);
+                let dt = r.range(1, 30);
                 for _ in 0..dt {
-                    tokio::time::sleep(Duration::from_secs(1)).await;
+                    // absolute deadlines: quiesce() itself advances the paused clock by a few milliseconds
+                    // (timer granularity), which must not accumulate
+                    t += 100;
+                    tokio::time::sleep_until(t0 + Duration::from_millis(t)).await;
                     quiesce().await;
-                    t = t0.elapsed().as_secs();
                     let closed: Vec<u64> = all.iter().filter(|s| s.sess.is_closed()).map(|s| s.seq).collect();
-                    ev!(log, "st", t: t, closed: closed);
+                    // every reaper tick is reported, and any change in between
+                    if t % ci == 0 || closed != last_closed { ev!(log, "st", t: t, closed: closed); last_closed = closed; }
                 }
             }
         }
